@@ -77,11 +77,12 @@ SKY_ALPHA = {
     "Lp": B.skysense_frame(_with(LONG, 5, 0x24), [0x80, 0x24, 0x02, 0x03, 0x24, 0x05], [0x24, 2, 3]),
     "Lq": B.skysense_frame(_with(LONG2, 5, 0x24), [0xFF, 0xFF, 0xFF, 0xFF, 0xFF, 0xFF], [9, 0x24, 9]),
     "S0": B.skysense_frame(_with(SHORT, 0, 0x24) + bytes(7), [0, 0, 0, 0, 0, 0], [0x24, 0x24, 0x24]),
+    "L0": B.skysense_frame(LONG, [0x80, 0, 0, 0, 0, 0], [0, 0, 0]),      # long frame stamped 00:00:00.000000000
 }
 for _df in range(32):
     # Skysense carries 14 payload bytes; formats 16-31 (first bit set) are long, 0-15 short
     SKY_ALPHA["F%02d" % _df] = B.skysense_frame(bytes([(_df << 3) | 3]) + LONG2[1:], [0x80, 1, 2, 3, 4, _df], [1, 2, _df])
-SKY_CORE = ["L", "S", "Lp", "Lq", "S0"]
+SKY_CORE = ["L", "S", "Lp", "Lq", "S0", "L0"]
 SKY_TERM = [0x24]
 
 FRAMERS = {
@@ -238,7 +239,22 @@ NS_ALPHA = {
 }
 
 
-def ns_run(seq, batching, cls="net"):
+NS_CLOCKS = ["float", "zero", "int0", "same"]
+
+
+def ns_clock(kind, k):
+    """timestamp of the k-th message (k = 0, 1, ...): ordinary floats; a stream that starts at exactly 0.0 (Skysense
+    frames carry the second of the day: 00:00:00 is 0.0); integer seconds from 0; all messages stamped alike."""
+    if kind == "float":
+        return 100.25 + 0.25 * k
+    if kind == "zero":
+        return 0.25 * k
+    if kind == "int0":
+        return k
+    return 5.0
+
+
+def ns_run(seq, batching, cls="net", clock="float"):
     if cls == "net":
         src = NetSource("localhost", 0, "beast")
     else:
@@ -247,13 +263,14 @@ def ns_run(seq, batching, cls="net"):
     src.stop_flag = _Flag()
     pipe = _Pipe()
     src.raw_pipe_in = pipe
-    t = 100.0
     i = 0
+    kmsg = 0
     handed_a, handed_b = [], []
     for size in batching:
         batch = []
         for nm in seq[i:i + size]:
-            t += 0.25
+            t = ns_clock(clock, kmsg)
+            kmsg += 1
             batch.append((NS_ALPHA[nm], t))
             if nm in ("a17", "a18"):
                 handed_a.append((NS_ALPHA[nm], t))
@@ -300,12 +317,14 @@ def w_ns(arg):
             seq = (first,) + rest
             for comp in compositions(n):
                 for cls in ("net", "rtl"):
-                    acc.n += 1
-                    acc.cov["transitions"] += len(comp)
-                    acc.cov["states"] += 1
-                    s = ns_run(seq, comp, cls)
-                    if s:
-                        acc.bad(s + ("" if cls == "net" else ":RtlSdrSource"), {"kind": "netsource", "seq": list(seq), "batching": list(comp), "cls": cls})
+                    for clock in NS_CLOCKS:
+                        acc.n += 1
+                        acc.cov["transitions"] += len(comp)
+                        acc.cov["states"] += 1
+                        s = ns_run(seq, comp, cls, clock)
+                        if s:
+                            acc.bad(s + ("" if cls == "net" else ":RtlSdrSource") + ("" if clock == "float" else ":clock_" + clock),
+                                    {"kind": "netsource", "seq": list(seq), "batching": list(comp), "cls": cls, "clock": clock})
             acc.out.add(("netsource", seq))
     return acc.res()
 
@@ -438,8 +457,10 @@ def replay(case):
             return [("%s:run_loop:exception:%s%s" % (case["framer"], got[1], tag), case)]
         return [("%s:run_loop:delivered_messages_differ_from_reference%s" % (case["framer"], tag), case)] if got != want else []
     if case["kind"] == "netsource":
-        s = ns_run(tuple(case["seq"]), tuple(case["batching"]), case.get("cls", "net"))
-        return [(s, case), (s + ":RtlSdrSource", case)] if s else []
+        ck = case.get("clock", "float")
+        s = ns_run(tuple(case["seq"]), tuple(case["batching"]), case.get("cls", "net"), ck)
+        sfx = "" if ck == "float" else ":clock_" + ck
+        return [(s + sfx, case), (s + ":RtlSdrSource" + sfx, case)] if s else []
     framer = case["framer"]
     stream = list(bytes.fromhex(case["stream"]))
     ref = FRAMERS[framer][3](stream)
